@@ -24,18 +24,29 @@ THEOREMS = [P + n for n in (
     'columns_range_one_mean_zero', 'dm_dof', 'confounds_flagged', 'dm_one_column_per_condition',
     'spm_filter_projection', 'spm_filter_runs_independent', 'spm_filter_idempotent',
     'derivative_files_spec', 'dataset_descriptors_exact', 'normalise_scale_invariant',
-    'reg_index_one_based', 'parse_reg_name')]
+    'reg_index_one_based', 'parse_reg_name',
+    # round 3
+    'fmriprep_accessor_files', 'hrf_sampling_grid', 'hrf_linear_in_events', 'hrf_linear_in_kernel',
+    'hrf_zero_outside_support', 'hrf_shift_equivariant', 'epoch_times_grid', 'epochs_selection',
+    'spm_residuals_annihilated', 'betas_resms_split', 'relocate_spec', 'meadows_rejections',
+    'stem_padded', 'padStrs_spec', 'confound_selection', 'hrf_table_shape',
+    'meadows_loader_syntax')]
 RULE = ('cases come from one PRNG and five sub-generators: BIDS paths built from entity records by '
         'an independent formatter (all 64 presence patterns of ses/task/run/space/desc/derivative x '
         'random and adversarial labels, plus normpath noise and out-of-grammar paths); Meadows names '
         'of the three shapes and files written by the harness (.mat single / multi participant, .json '
         'multi task; 2-6 stimuli, 1-4 RDMs, sort on/off) plus the rejected combinations; real '
-        'mne.EpochsArray objects (also through a FIF file); event tables x TR x volumes x confound '
-        'tables (with n/a columns); SPM runs with exactly orthonormal rational filter bases '
+        'mne.EpochsArray objects (also through a FIF file; repeated event codes, event_id dicts in any '
+        'order, selections by name, epochs starting before / at / after the event); event tables x '
+        'dyadic TR x volumes x confound tables (with n/a columns), the model placing the tabulated '
+        'response interpolant at every onset itself; SPM runs with exactly orthonormal rational filter bases '
         '(Householder columns); whole SPM.mat files written by the harness (1-3 sessions) through '
         'get_info_from_spm_mat / get_betas / get_residuals; BIDS trees written by the harness (1-5 runs, '
         'every presence pattern of ses/task/run/space, task filters) through find_fmriprep_runs and every '
-        'FmriprepRun accessor, file contents being a function of the path.  Each sub-generator starts '
+        'FmriprepRun accessor, file contents being a function of the path (two sessions of one subject, '
+        'the same file names in another derivative and in the raw tree, requested confound names none / '
+        'empty / subset / reversed / missing); Meadows stimulus names with, without and with mixed '
+        'extensions (blank-padded char matrices).  Each sub-generator starts '
         'with a fixed skeleton of directed cases reaching every tag of BRANCHES, then the random stream.  '
         'A case is non-trivial unless it is an out-of-grammar name; '
         'distinct = distinct JSON of the case')
@@ -44,11 +55,15 @@ BRANCHES = (C20_bids.BRANCHES + C20_meadows.BRANCHES + C20_mne.BRANCHES + C20_dm
 ASSUMPTIONS = [
     'os.path.normpath is the identity on relative paths without empty, "." or ".." components '
     '(the model drops empty and "." components, ".." is outside the BIDS grammar)',
-    'scipy.io.loadmat / json.load return what savemat / json.dump wrote (stimulus names carry a '
-    'file extension, so the blank padding of MATLAB char arrays never reaches a label)',
-    'the HRF convolution and the two PCHIP resampling steps of make_design_matrix are a contract: '
-    'the model receives the un-normalised predictor columns from an independent transcription '
-    'in the harness (C20_dm.raw_columns) and carries everything after them',
+    'scipy.io.loadmat / json.load return what savemat / json.dump wrote, char matrices blank-padded '
+    'to the longest row (modelled: padStrs); labels of extension-less names in a .mat keep that '
+    'padding and are compared modulo trailing blanks by the oracle',
+    'the HRF (x) box convolution and the PCHIP resampling of make_design_matrix are a contract: the '
+    'model receives the number of samples of the resampled response and a table of its PCHIP '
+    'interpolant at the arguments it asks for (C20_dm.response, an independent transcription); '
+    'placing the knots at onset + hrf_times shifts that interpolant by the onset (1e-9); TRs and '
+    'onsets are dyadic so that the support test o <= t <= o + T is decided alike in floats and in Q',
+    'epochs.times[k] = (first + k) / sfreq is mne\'s contract (modelled: epochTimes)',
     'numpy float64 evaluation of the projections / normalisations is within 1e-9 of exact arithmetic',
 ]
 TRUSTED_EXTRA = [
